@@ -265,8 +265,9 @@ func extra10C10(c *Ctx) {
 
 // ---------------------------------------------------------------------------------- C12
 
-func extra10C12(c *Ctx) {
-	rule := "C12-R14"
+func extra10C12(c *Ctx) { ruleTolerantNameLookup(c, "C12-R14") }
+
+func ruleTolerantNameLookup(c *Ctx, rule string) {
 	c.Rule(rule, "an unreadable manifest does not block the operations that would repair it: getExistingName scans the store with Manifests(true) (unreadable manifests skipped) — every store-changing handler resolves its name through it first, and with the strict scan one manifest torn by a kill makes pull, create, copy, delete and push answer 400 before they reach the code that would overwrite or remove the file, so the interrupted operation can never be repeated")
 	f := c.Fn(rule, "server", "getExistingName")
 	if f == nil {
